@@ -66,6 +66,10 @@ def menu(tier, size):
                 out.append((profile, start, end, score))
     out.append(("regulatorR", 0, 10, 1))
     out.append(("A", 0, 30, 3))
+    # a fragment of the short profile that is shorter in residues than the fragments of the long profile but more complete
+    # (18 of 40 = 45% against 30 of 100 = 30%): "more complete" is a matter of proportion, not of length
+    out.append(("A", 0, 18, 1))
+    out.append(("A", 62, 80, 2))
     if size >= 6 or (size >= 5 and tier != "thorough"):
         out = [h for i, h in enumerate(out) if i % 2 == 0]
     return out
@@ -112,7 +116,8 @@ def postconditions(inputs, out):
     for h in inputs:
         if h in represented:
             continue
-        excused = any(overlap(h, o) > margin(h[0], o[0]) and o[3] >= h[3] for o in out)
+        # (a hit lying wholly inside a kept hit overlaps it as much as it can, even when that is less than the margin)
+        excused = any((overlap(h, o) > margin(h[0], o[0]) or overlap(h, o) >= min(h[2] - h[1], o[2] - o[1])) and o[3] >= h[3] for o in out)
         fraction = (h[2] - h[1]) / LENS[h[0]]
         if not excused and fraction <= 0.5:
             if not out or any((o[2] - o[1]) / LENS[o[0]] >= fraction for o in out):
